@@ -194,12 +194,16 @@ pub fn case_for(seed: u64, tier: Tier, run: u64) -> Case {
             gen_session_case(&mut rng, curve, &kn).st
         };
         let (_, _, _, padded) = shape_of(&stmt);
-        let mask = match below(&mut rng, 4) {
+        let mut mask = match below(&mut rng, 4) {
             0 => 0,
             1 => 1u32 << below(&mut rng, 15),
             2 => (1u32 << below(&mut rng, 15)) | (1u32 << below(&mut rng, 15)),
             _ => (rng.next_u32()) & 0x7fff,
         };
+        // bits 16..18: mass moved between (A_I1,A_I2), (A_O1,A_O2), (S1,S2) before absorption
+        if chance(&mut rng, 1, 2) {
+            mask = (mask & if chance(&mut rng, 1, 2) { 0 } else { 0x7fff }) | ((1 + below(&mut rng, 7) as u32) << 16);
+        }
         return Case {
             base: SessionCase { st: stmt, cap_p: vec![padded], cap_v: vec![padded], ext_seed: 0 },
             wfault: None,
@@ -235,7 +239,7 @@ pub fn case_for(seed: u64, tier: Tier, run: u64) -> Case {
 /// identity when the corresponding nonce is zero.
 fn adversary_statement(curve: Curve, which: u64) -> Statement {
     let lit = |u: u64| Val::Lit(S::U(u));
-    let ops = match which % 5 {
+    let ops = match which % 10 {
         // gate-free: every t_i = 0, A_I1 = beta*B~ ...
         0 => vec![Op::Commit { v: S::U(4), r: S::U(9) }, Op::Constrain(Expr::sub(Expr::V(0), Expr::K(S::U(4))))],
         // one half-open gate: a_R = a_O = 0
@@ -248,7 +252,26 @@ fn adversary_statement(curve: Curve, which: u64) -> Statement {
             Op::Randomized(vec![Op::Challenge { label: 5 }, Op::Mul(Expr::K(S::U(0)), Expr::K(S::U(0))), Op::Mul(Expr::K(S::U(0)), Expr::K(S::U(0)))]),
         ],
         // second phase only, all-zero gates
-        _ => vec![Op::Randomized(vec![Op::Challenge { label: 5 }, Op::AllocMul(Some((lit(0), lit(0))))])],
+        4 => vec![Op::Randomized(vec![Op::Challenge { label: 5 }, Op::AllocMul(Some((lit(0), lit(0))))])],
+        // 2^k first-phase gates, a randomized phase that adds constraints but no gate, no padding:
+        // the u-scaled block of the generators is EMPTY (the mass-move adversary's home ground)
+        5 | 6 | 7 => {
+            let k = 1usize << ((which / 8) % 4);
+            let mut v: Vec<Op> = (0..k).map(|i| Op::AllocMul(Some((lit(2 + i as u64), lit(3))))).collect();
+            v.push(Op::Randomized(vec![Op::Challenge { label: 5 }, Op::Constrain(Expr::sub(Expr::V(0), Expr::K(S::U(2))))]));
+            v
+        }
+        // the same with a non-empty u-scaled block (padding only / second-phase gates)
+        _ => {
+            let k = 1 + ((which / 8) % 6) as usize;
+            let mut v: Vec<Op> = (0..k).map(|i| Op::AllocMul(Some((lit(2 + i as u64), lit(3))))).collect();
+            let mut blk = vec![Op::Challenge { label: 5 }, Op::Constrain(Expr::sub(Expr::V(0), Expr::K(S::U(2))))];
+            if (which / 64) % 2 == 0 {
+                blk.push(Op::AllocMul(Some((lit(4), lit(5)))));
+            }
+            v.push(Op::Randomized(blk));
+            v
+        }
     };
     Statement { curve, tlabel: 0, pre: vec![], bases: Bases::Default, ops }
 }
@@ -280,7 +303,19 @@ fn run_adversary<G: AffineRepr>(run: u64, case: &Case, mask: u32, seed: u64, st:
     st.eval();
     st.fault("adversarial-prover-chosen-nonces");
     let stmt = &case.base.st;
-    let rp = crate::refprover::ref_prove::<G>(stmt, &|n1, n2| Some(adv_nonces::<F<G>>(mask, seed, n1, if n2 == usize::MAX { 0 } else { n2 })));
+    let moves: Option<[F<G>; 3]> = if mask >> 16 != 0 {
+        let mut mr = rng_from_u64(seed, "adversary-mass-move");
+        let mut m = [F::<G>::from(0u64); 3];
+        for (b, slot) in m.iter_mut().enumerate() {
+            let x = <F<G> as ark_std::UniformRand>::rand(&mut mr);
+            if mask & (1 << (16 + b)) != 0 { *slot = if seed % 3 == 0 { F::<G>::from(1u64) } else { x }; }
+        }
+        st.fault("adversarial-prover-mass-moved-between-phase-commitments");
+        Some(m)
+    } else {
+        None
+    };
+    let rp = crate::refprover::ref_prove_adv::<G>(stmt, &|n1, n2| Some(adv_nonces::<F<G>>(mask, seed, n1, if n2 == usize::MAX { 0 } else { n2 })), moves);
     let Some(rp) = rp else {
         st.probe("adversary-could-not-prove(skipped)");
         return;
@@ -307,6 +342,13 @@ fn run_adversary<G: AffineRepr>(run: u64, case: &Case, mask: u32, seed: u64, st:
         eprintln!("adversary mask={:#b} shape={} real={} ref={}", mask, stmt.shape(), real.text, rf.why());
     }
     st.probe(&format!("adversary:agree:{}:a{}", if rf.accept() { "accept" } else { "reject" }, rf.rel_a as u8));
+    if moves.is_some() {
+        let (n1, n2, _, padded) = shape_of(stmt);
+        st.probe(if n1 == padded && n2 == 0 { "adversary:mass-move:u-block-empty" } else { "adversary:mass-move:u-block-non-empty" });
+        if rf.accept() {
+            st.probe("adversary:mass-move:accepted-by-both(!)");
+        }
+    }
     if n_ident > 0 {
         st.probe("adversary:identity-commitment-produced");
     }
